@@ -477,15 +477,23 @@ func (s *State) findVerifiersForPathIfProtected(path string) ([]*SignatureVerifi
 		return nil, err
 	}
 
-	allPrincipals := targetsMetadata.GetPrincipals()
 	// each entry is a list of delegations from a particular metadata file
 	groupedDelegations := [][]tuf.Rule{
 		targetsMetadata.GetRules(),
+	}
+	// each entry holds the principals the rules of the corresponding group may
+	// name: those defined in the group's own metadata file and, where the file
+	// doesn't redefine them, those of the files that delegated to it. The
+	// principals declared in a delegated file must never change who a rule in
+	// another file trusts.
+	groupedPrincipals := []map[string]tuf.Principal{
+		targetsMetadata.GetPrincipals(),
 	}
 
 	seenRoles := map[string]bool{TargetsRoleName: true}
 
 	var currentDelegationGroup []tuf.Rule
+	var allPrincipals map[string]tuf.Principal
 	verifiers := []*SignatureVerifier{}
 	for {
 		if len(groupedDelegations) == 0 {
@@ -494,6 +502,8 @@ func (s *State) findVerifiersForPathIfProtected(path string) ([]*SignatureVerifi
 
 		currentDelegationGroup = groupedDelegations[0]
 		groupedDelegations = groupedDelegations[1:]
+		allPrincipals = groupedPrincipals[0]
+		groupedPrincipals = groupedPrincipals[1:]
 
 		for len(currentDelegationGroup) > 1 {
 			// Exit condition: Only allow rule found in the current group
@@ -526,13 +536,18 @@ func (s *State) findVerifiersForPathIfProtected(path string) ([]*SignatureVerifi
 
 					seenRoles[delegation.ID()] = true
 
+					delegatedPrincipals := make(map[string]tuf.Principal, len(allPrincipals))
+					for principalID, principal := range allPrincipals {
+						delegatedPrincipals[principalID] = principal
+					}
 					for principalID, principal := range delegatedMetadata.GetPrincipals() {
-						allPrincipals[principalID] = principal
+						delegatedPrincipals[principalID] = principal
 					}
 
 					// Add the current metadata's further delegations upfront to
 					// be depth-first
 					groupedDelegations = append([][]tuf.Rule{delegatedMetadata.GetRules()}, groupedDelegations...)
+					groupedPrincipals = append([]map[string]tuf.Principal{delegatedPrincipals}, groupedPrincipals...)
 
 					if delegation.IsLastTrustedInRuleFile() {
 						// Stop processing current delegation group, but proceed
